@@ -17,6 +17,8 @@ STREAM_SPECS = {
     'tiles2x1':   ({'enc_mode': 8, 'tile_columns': 0, 'tile_rows': 1, 'logical_processors': 2}, {'kind': 'moving', 'seed': 17}, 6, (192, 256)),   # more tile rows than columns
     'tiles1x4':   ({'enc_mode': 8, 'tile_columns': 2, 'tile_rows': 0, 'logical_processors': 2}, {'kind': 'mix', 'seed': 18}, 5, (512, 192)),
     'tilecols_w': ({'enc_mode': 8, 'tile_columns': 1, 'tile_rows': 0, 'logical_processors': 2, 'qp': 45}, {'kind': 'moving', 'seed': 23}, 5, (640, 192)),   # two tile columns, each 5 superblocks wide, 3 superblock rows: room for the recon wavefront inside a tile
+    'superres_kf': ({'enc_mode': 8, 'superres_mode': 1, 'superres_denom': 8, 'superres_kf_denom': 16, 'logical_processors': 1, 'enable_tpl_la': 0, 'intra_period_length': 3, 'intra_refresh_type': 2}, {'kind': 'moving', 'seed': 25}, 9, (128, 128)),   # key frames coded at half width, the others at full width: frame size changes under one sequence header
+    'superres_rnd': ({'enc_mode': 8, 'superres_mode': 2, 'logical_processors': 1, 'enable_tpl_la': 0}, {'kind': 'moving', 'seed': 26}, 8, (128, 128)),
     'tc_intra':   ({'enc_mode': 8, 'tile_columns': 1, 'tile_rows': 0, 'logical_processors': 2, 'qp': 40, 'intra_period_length': 1}, {'kind': 'moving', 'seed': 24}, 4, (640, 320)),   # every second picture intra coded: intra prediction reads the neighbouring superblocks' pixels
     'wide64':     ({'enc_mode': 8, 'logical_processors': 1}, {'kind': 'mix', 'seed': 19}, 5, (192, 64)),
     'k3w144':     ({'enc_mode': 8, 'logical_processors': 1, 'intra_period_length': 3, 'intra_refresh_type': 2}, {'kind': 'moving', 'seed': 20}, 9, (144, 64)),   # sequence header repeated at every key frame
@@ -51,6 +53,7 @@ AOM_SPECS = {
     'aom_sb128':    ({'kind': 'moving', 'seed': 41}, 6, (192, 128), 8, {'lag': 4}, {'cpu-used': 4, 'sb-size': 128}),
     'aom_sb64':     ({'kind': 'hgrad', 'seed': 42}, 5, (192, 128), 8, {'lag': 4, 'min_q': 4, 'max_q': 12}, {'cpu-used': 3, 'sb-size': 64}),
     'aom_superres': ({'kind': 'moving', 'seed': 43}, 5, (128, 128), 8, {'lag': 0, 'superres_mode': 1, 'superres_denom': 12, 'superres_kf_denom': 12}, {'cpu-used': 5}),
+    'aom_superres_rnd': ({'kind': 'moving', 'seed': 50}, 8, (128, 128), 8, {'lag': 0, 'superres_mode': 2}, {'cpu-used': 5}),   # random super-resolution denominators: coded frame size changes from frame to frame
     'aom_errres':   ({'kind': 'moving', 'seed': 44}, 7, (96, 96), 8, {'lag': 0, 'error_resilient': 1}, {'cpu-used': 5}),
     'aom_odd':      ({'kind': 'mix', 'seed': 45}, 5, (70, 66), 8, {'lag': 4}, {'cpu-used': 4}),
     'aom_highq':    ({'kind': 'noise', 'seed': 46}, 4, (64, 64), 8, {'lag': 0, 'min_q': 0, 'max_q': 4}, {'cpu-used': 4}),
@@ -135,7 +138,7 @@ def check_c08(tier, seed):
                   'is_16bit_pipeline in {0,1}, film grain applied; oracle: same number, order and samples as dav1d; distinct = distinct (stream, decoder configuration)')
     ck.ev.components = DEC_COMPONENTS; ck.ev.assumptions = ['streams come from the SVT encoder (simulated encodes) and from the libaom 3.6.0 encoder (dlopen, ABI probed; kept only when dav1d and the libaom decoder agree)', 'dav1d 1.0.0 via hand-declared ABI']
     core.build('plain'); rng = ck.rng
-    names = list(STREAM_SPECS.keys()) + list(AOM_SPECS) if tier != 'quick' else ['base8', 'tiles2x2', 'ten', 'grain', 'grain_static', 'grain_hold', 'lr_cdef', 'sb128', 'screen', 'overlay', 'lowdelay', 'superres'] + list(AOM_SPECS)
+    names = list(STREAM_SPECS.keys()) + list(AOM_SPECS) if tier != 'quick' else ['base8', 'tiles2x2', 'ten', 'grain', 'grain_static', 'grain_hold', 'lr_cdef', 'sb128', 'screen', 'overlay', 'lowdelay', 'superres', 'superres_kf', 'superres_rnd'] + list(AOM_SPECS)
     st = make_streams(names, ck)
     cases = []
     for nm, s in st.items():
@@ -371,6 +374,10 @@ def check_c10(tier, seed):
     cases = [corpus_case(b, corp['streams']) for b in cb]
     # exact-size input buffers keep demonstrating the bit reader's look-ahead (recorded finding)
     ex = corpus_case({'stream': 'base8', 'transport': []}, corp['streams']); ex['exact_input'] = 1; ex['_corpus'] = 0; ex['_explore'] = 0; cases.append(ex)
+    clean = make_streams(['superres_kf', 'superres_rnd', 'aom_superres_rnd', 'aom_superres', 'k3w144', 'aom_errres'], ck)
+    for nm, s_ in clean.items():
+        for th in (1, 4):
+            cases.append(dec_case(s_, th, extra={'_stream': nm, '_corpus': 0, '_explore': 0, '_clean': 1})); ck.ev.probe('clean_structure_changing_stream')
     st = make_streams(['base8', 'screen'] if tier == 'quick' else ['base8', 'tiles2x2', 'screen', 'grain', 'ten', 'lr_cdef', 'overlay', 'lowdelay'], ck)
     rounds = 0
     sites = {}
@@ -734,7 +741,8 @@ def check_c16(tier, seed):
                   'oracle: the call during which the fault fired returns a non-success code, deinit/deinit_handle complete, ledger empty, no crash/hang/sanitizer report; distinct = distinct (k or j, phase)')
     ck.ev.components = core.COMPONENTS_ENC; ck.ev.assumptions = ['allocation numbering is stable because the schedule is the fixed non-preemptive one', 'one fault per run']
     variant = 'plain'; core.build(variant); rng = ck.rng
-    cfgs = [({'logical_processors': 1, 'enc_mode': 8}, (64, 64))] + ([] if tier == 'quick' else [({'logical_processors': 4, 'enc_mode': 6, 'tile_columns': 1, 'encoder_bit_depth': 10}, (128, 128))])
+    # second configuration: other constructors run (tiles, 10-bit/16-bit buffers, overlays, more worker contexts); quick samples only the first occurrence of each of its allocation sites
+    cfgs = [({'logical_processors': 1, 'enc_mode': 8}, (64, 64)), ({'logical_processors': 4, 'enc_mode': 6, 'tile_columns': 1, 'encoder_bit_depth': 10, 'enable_overlays': 1, 'hierarchical_levels': 3}, (128, 128))]
     total_k = 0; enumerated = 0
     for cfgo, wh in cfgs:
         base = mk(ck, dict(cfgo, recon_enabled=1), {'kind': 'mix', 'seed': 3}, 0, wh, oracles={'decode': 0, 'parse': 0, 'order': 0}); base['program'] = copy.deepcopy(SETUP_PROG); base['_gen'] = None
@@ -747,11 +755,15 @@ def check_c16(tier, seed):
         K = k_in; total_k += K; nthreads = r['sim']['thread_create_counter']
         ck.ev.extra.setdefault('census', []).append({'cfg': cfgo, 'allocations': {'init_handle': k_ih, 'set_parameter': k_sp - k_ih, 'init': k_in - k_sp}, 'distinct_sites': len(r.get('sites', [])), 'threads': nthreads})
         def phase(k): return 'init_handle' if k <= k_ih else ('set_param' if k <= k_sp else 'init')
-        ks = set(range(1, 31 if tier == 'quick' else 61))
+        second_quick = (tier == 'quick' and cfgo is not cfgs[0][0])
+        ks = set(range(1, 31 if tier == 'quick' else 61)) if not second_quick else set()
         per_site = 2 if tier == 'quick' else 32
         for s in r.get('sites', []):
             site, cnt, first, last = s
             ks.add(first)
+            if second_quick:
+                if rng.random() < 0.5: ks.discard(first)
+                continue
             if tier != 'quick' or rng.random() < 0.25: ks.add(last)   # quick: every site's first occurrence, a seeded quarter of the last ones
             if cnt > 2:
                 for _ in range(max(0, min(per_site - 2, cnt - 2))): ks.add(rng.randint(first, last))
@@ -761,7 +773,7 @@ def check_c16(tier, seed):
         cases = []
         for k in ks:
             c = copy.deepcopy(base); c['mem'] = {'alloc_fail_at': k}; c['_phase'] = phase(k); cases.append(c)
-        for j in range(1, nthreads + 1):
+        for j in (range(1, nthreads + 1) if not second_quick else range(1, nthreads + 1, 3)):
             c = copy.deepcopy(base); c['mem'] = {'thread_fail_at': j}; c['_phase'] = 'init(thread)'; cases.append(c)
         def consume(cases):
             rs = pmap(lambda c: run_case(c, variant), cases, variant=variant)
